@@ -74,6 +74,56 @@ theorem group_measure_is_max (cfg : Cfg) (items : List R) (w : Nat) (hne : items
       ⟨listMax ((measureL cfg items w).map (·.minimum)), listMax ((measureL cfg items w).map (·.maximum))⟩ :=
   Layout.group_measure_is_max cfg items w hne
 
+/-! ### where the proviso "at or above the structural minimum" can be dropped, and where it cannot -/
+
+/-- **Text needs no proviso**: at EVERY available width (any Python int) a text — or a `str` — rendered at its reported maximum produces
+no line wider than that maximum (below one cell nothing is rendered at all); likewise at its reported minimum.  Only the documented
+opt-out `overflow="ignore"` and an explicit `end` are excluded. -/
+theorem text_render_at_measure_fits (cfg : Cfg) (ok : CfgOk cfg) (t : T) (o : Opts) (hd : textDom t o) (m : Int) :
+    ∀ l ∈ renderedLines cfg (.text t) o m, (lineLength cfg.cw l : Int) ≤ max m 0 := by
+  intro l hl
+  unfold renderedLines consoleRender at hl
+  by_cases hm : m < 1
+  · simp only [hm, if_true] at hl
+    have : splitLines ([] : List Seg) = [] := rfl
+    rw [this] at hl; cases hl
+  · simp only [hm, if_false] at hl
+    rw [render] at hl
+    have hf := text_fits cfg ok.hsp ok.h2 ok.hel ok.hp t o m.toNat (by omega) hd.1 hd.2
+    have := (fits_iff_lines cfg.cw m.toNat _).mp hf l hl
+    omega
+
+/-- **A tree needs no proviso** either: every line of a rendered tree is at most the width it was given, whatever the labels. -/
+theorem tree_render_at_measure_fits (cfg : Cfg) (ok : CfgOk cfg) (root : TNode) (o : Opts) (m : Int) :
+    ∀ l ∈ renderedLines cfg (.tree root) o m, (lineLength cfg.cw l : Int) ≤ max m 0 := by
+  intro l hl
+  unfold renderedLines consoleRender at hl
+  by_cases hm : m < 1
+  · simp only [hm, if_true] at hl
+    have : splitLines ([] : List Seg) = [] := rfl
+    rw [this] at hl; cases hl
+  · simp only [hm, if_false] at hl
+    have hf := C01.tree_fits_whatever_the_labels cfg ok root o m.toNat
+    have := (fits_iff_lines cfg.cw m.toNat _).mp hf l hl
+    omega
+
+/-- **A panel does need it**: with one cell available `Panel(Text("a"))` reports (1, 1) — `Measurement.get` clamps the panel's own
+answer 5 to the width on offer — and rendered at 1 its borders alone are 2 cells wide.  Below the structural minimum (here 5) the
+measurement of a framed renderable is only the clamp, not a promise. -/
+theorem panel_measure_below_borders_is_only_the_clamp :
+    measureGet C01.nowCfg (.panel { box := 0 } (C01.wText "a")) 1 = ⟨1, 1⟩ ∧
+    (renderedLines C01.nowCfg (.panel { box := 0 } (C01.wText "a")) {} 1).map (lineLength cwR) = [2, 2] ∧
+    smin cwR (.panel { box := 0 } (C01.wText "a")) = 5 := by decide +kernel
+
+/-! ### documented non-claims (outside C09's quantifier "renderable trees as in C01")
+
+`Syntax` and `Pretty` are not among the renderables of C01's trees, so nothing above speaks about them; what the neighbouring
+properties established about their `__rich_measure__` is recorded here so that nobody reads C09 as covering it:
+* `Syntax.__rich_measure__` with line numbers and an explicit `code_width` reports a maximum ONE CELL SHORT of what it renders
+  (C17: `measure_maximum_one_short_with_numbers`) — an unsound measurement of exactly the kind C09 forbids for its own trees;
+* `Pretty.__rich_measure__` is sound since fix db5535b (C16: `pretty_measure_sound`); before it, it measured the repr without the
+  width it was going to be rendered at. -/
+
 /-! ## text -/
 
 /-- **text_measure_spec.**  For a text that is not all whitespace, `Text.__rich_measure__` reports: as maximum the width of its
